@@ -466,6 +466,13 @@ type node struct {
 	smHC      chan struct{}
 
 	pointFn verifhook.PointFunc
+
+	// snapshot destinations: 0 = a fresh value per call; 1 = one value per view kept and passed
+	// again (what the doc comments of VotingView/CommittingView recommend, to save garbage);
+	// 2 = one single value passed alternately to VotingView and CommittingView
+	dstMode      int
+	dstMu        sync.Mutex
+	dstVV, dstCV tmconsensus.VersionedRoundView
 }
 
 func newNode(ctx context.Context, cs *caseState) *node {
@@ -792,6 +799,24 @@ func (n *node) views() (vv, cv tmconsensus.VersionedRoundView, ok bool) {
 	}
 	ctx, cancel := n.callCtx()
 	defer cancel()
+	if n.dstMode != 0 {
+		// reused destinations; the caller gets independent copies
+		n.dstMu.Lock()
+		defer n.dstMu.Unlock()
+		pv, pc := &n.dstVV, &n.dstCV
+		if n.dstMode == 2 {
+			pc = pv
+		}
+		if err := n.m.VotingView(ctx, pv); err != nil {
+			return vv, cv, false
+		}
+		vv = pv.Clone()
+		if err := n.m.CommittingView(ctx, pc); err != nil {
+			return vv, cv, false
+		}
+		cv = pc.Clone()
+		return vv, cv, true
+	}
 	if err := n.m.VotingView(ctx, &vv); err != nil {
 		return vv, cv, false
 	}
